@@ -341,8 +341,25 @@ class Gen(object):
             d['check_with'] = self.checker()
         return d
 
+    def homogeneous_defs(self, kind):
+        """definitions that all consist of the same single rule (what the <of>_<rule> shorthand abbreviates)"""
+        rule = self.pick(['type', 'type', 'min', 'max', 'allowed', 'regex', 'minlength', 'check_with', 'nullable', 'forbidden'])
+        n = self.r.randint(0, 3)
+        vals = {
+            'type': lambda: self.pick(SCALAR_TYPES + ['list', 'dict', ['integer', 'string']]),
+            'min': lambda: self.pick(INTS), 'max': lambda: self.pick(INTS),
+            'allowed': lambda: self.some(INTS + STRS, 1, 4), 'forbidden': lambda: self.some(INTS + STRS, 1, 3),
+            'regex': lambda: self.pick(REGEXES), 'minlength': lambda: self.r.randint(0, 3),
+            'check_with': lambda: self.checker(), 'nullable': lambda: self.chance(0.5),
+        }[rule]
+        return [{rule: vals()} for _ in range(n)]
+
     def logical(self, r, depth, siblings, kind='any'):
         for op in self.some(['anyof', 'allof', 'noneof', 'oneof'], 1, 2):
+            if self.chance(0.3):
+                r[op] = self.homogeneous_defs(kind)
+                self.features.add(op)
+                continue
             defs = []
             for _ in range(self.r.randint(0, 3)):
                 if self.chance(0.65):
